@@ -137,13 +137,21 @@ func c13LongRun(c c13Long, seed string) (sig, msg string, stt c13LongStats, inco
 		if aerr := book.AddLeaf(bg, &cp); aerr != nil {
 			return "valid-vertex-rejected", fmt.Sprintf("round %d: the withheld parent (its own parents present) was rejected: %v", ri, aerr), stt, ""
 		}
-		bound := r.N + 2
+		// drain: full passes over whatever is parked until nothing is. The node's own ticker may pop a vertex in between
+		// and so rotate the queue, which costs an extra pass; a reverse chain needs one pass per vertex.
+		maxPasses := 6
 		if r.Shape == "rchain" {
-			bound = r.N*(r.N+1)/2 + 2
+			maxPasses = r.N + 3
 		}
-		for k := 0; k < bound && len(sim.ParkedList(book)) > 0; k++ {
-			if g := pop(); g != nil {
-				return "", "", stt, "retry: " + g.Error()
+		for pass := 0; pass < maxPasses; pass++ {
+			n := len(sim.ParkedList(book))
+			if n == 0 {
+				break
+			}
+			for i := 0; i < n; i++ {
+				if g := pop(); g != nil {
+					return "", "", stt, "retry: " + g.Error()
+				}
 			}
 		}
 		have := live()
@@ -156,7 +164,16 @@ func c13LongRun(c c13Long, seed string) (sig, msg string, stt c13LongStats, inco
 			if myRetry[k.Hash]+ticks+2 >= 25 {
 				return "", "", stt, fmt.Sprintf("round %d: vertex may have used up its retries (%d by the harness, up to %d by the ticker)", ri, myRetry[k.Hash], ticks)
 			}
-			return "vertex-lost", fmt.Sprintf("round %d (%s of %d children, %d passes; the node had done %d retries over its lifetime, at most %d parked at once): child %x was parked, its parent arrived, and after %d retries of its own it is neither in the ledger nor parked=%v", ri, r.Shape, r.N, r.Passes, stt.pops, stt.maxParked, k.Hash[:4], myRetry[k.Hash], len(sim.ParkedList(book)) > 0), stt, ""
+			stillParked := false
+			for _, p := range sim.ParkedList(book) {
+				if p.Hash == k.Hash {
+					stillParked = true
+				}
+			}
+			if stillParked {
+				return "buffer-not-drained", fmt.Sprintf("round %d (%s of %d children, %d passes): child %x is still parked after its parent arrived and %d further full passes (%d retries of its own)", ri, r.Shape, r.N, r.Passes, k.Hash[:4], maxPasses, myRetry[k.Hash]), stt, ""
+			}
+			return "vertex-lost", fmt.Sprintf("round %d (%s of %d children, %d passes; the node had done %d retries over its lifetime, at most %d parked at once): child %x was parked, its parent arrived, and after %d retries of its own it is neither in the ledger nor parked", ri, r.Shape, r.N, r.Passes, stt.pops, stt.maxParked, k.Hash[:4], myRetry[k.Hash]), stt, ""
 		}
 		if n := len(sim.ParkedList(book)); n > 0 {
 			return "buffer-not-drained", fmt.Sprintf("round %d: %d vertices still parked although every parent is present", ri, n), stt, ""
